@@ -7,7 +7,7 @@ excludes, explicit pairs incl. duplicated, reversed and degenerate self pairs, f
 Line format sent to the Lean side (see the header of Model/PairFilter.lean):
   ngeom nbody filterparent npair nexclude geom_bodyid.. geom_contype.. geom_conaffinity.. body_weldid..
   body_parentid.. pair_geom1.. pair_geom2.. exclude_signature..
-Answer: the contact column of nxn_pairid in triu order, or ERR.
+Answer: the contact column of nxn_pairid in triu order, or ERR (IndexError), or NOTIMPL (NotImplementedError: self pair).
 """
 from __future__ import annotations
 import os, random, subprocess, sys, tempfile
@@ -107,6 +107,8 @@ def run(seed=0, ncases=100):
         exp = " ".join(str(int(t)) for t in m.nxn_pairid.numpy()[:, 0]) if mjm.ngeom >= 2 else ""
       except IndexError:
         exp = "ERR"
+      except NotImplementedError:
+        exp = "NOTIMPL"   # an explicit pair of a geom with itself (repaired defect, /repo 6cb912c)
       nself += int(any(a == b for a, b in zip(mjm.pair_geom1, mjm.pair_geom2)))
       p.stdin.write(line_of(mjm) + "\n")
       p.stdin.flush()
